@@ -404,6 +404,91 @@ def vevperm_case(rng, hashseed):
             "oseed": rng.randint(0, 10**9), "hashseed": hashseed}
 
 
+def offnorm_case(rng, hashseed, where):
+    """valid but not exactly normalised tables: columns typed with three decimals whose sums are within 0.005 of one
+    (check_model accepts 0.01).  where='root': only parentless CPDs are off (pruned = unpruned reference, compared with
+    the brute-force posterior); where='any': also non-root columns (the code prunes barren nodes as if their columns
+    summed to one, so the oracle is the model, which prunes the same way)"""
+    n = rng.choice([2, 3, 3, 4, 5])
+    shape, edges = shape_dag(rng, n)
+    cards = [rng.choice([2, 3, 3, 4]) for _ in range(n)]
+    cpds = gen_cpds(rng, n, edges, cards)
+    roots = [v for v in range(n) if not cpds[str(v)]["pa"]]
+    for v in range(n):
+        if where == "root" and v not in roots:
+            continue
+        if rng.random() < (0.8 if v in roots else 0.6):
+            cols = []
+            for col in cpds[str(v)]["cols"]:
+                c = [Fraction(a, b) for a, b in col]
+                if rng.random() < 0.3 and cards[v] == 3:
+                    c2 = [Fraction(333, 1000)] * 3
+                else:
+                    d = Fraction(rng.choice([-4, -3, -1, 1, 2, 4]), 1000)
+                    c2 = [Fraction(round(float(x * (1 + d)) * 1000), 1000) for x in c]
+                    if sum(c2) == 1 and c2[0] > 0:
+                        c2[0] += Fraction(1, 1000)
+                if abs(sum(c2) - 1) <= Fraction(5, 1000) and all(x >= 0 for x in c2):
+                    c = c2
+                cols.append([fr(x) for x in c])
+            cpds[str(v)]["cols"] = cols
+    q, ev, vev = pick_query(rng, n, cards, True)
+    r = rng.random()
+    if r < 0.5:
+        ev, vev = [], []          # nothing observed: "already a distribution" shortcuts
+    elif r < 0.65:
+        ev = []
+    nodes = list(range(n))
+    rng.shuffle(nodes)
+    return {"kind": "rand", "shape": "offnorm-" + where, "offnorm": where, "n": n, "nodes": nodes,
+            "edges": [list(e) for e in edges], "cards": cards, "cpds": cpds, "nstyle": rng.choice(["str", "int", "tuple"]),
+            "sstyle": rng.choice(["int", "str", "onebased"]), "nameseed": rng.randint(0, 10**9), "Q": q, "E": ev,
+            "vev": vev, "oseed": rng.randint(0, 10**9), "hashseed": hashseed}
+
+
+def midsize_case(rng, hashseed, tier):
+    """9-12 node chains / trees / polytrees, 17 nodes (1 mod 8), a variable with 257 states"""
+    kind = rng.choice(["chain", "tree", "poly", "chain", "wide257"] + (["n17"] if tier != "quick" or rng.random() < 0.3 else []))
+    if kind == "wide257":
+        n, cards = 3, [257, 2, 2]
+        edges = [(0, 1), (1, 2)] if rng.random() < 0.5 else [(0, 1), (0, 2)]
+    else:
+        n = 17 if kind == "n17" else rng.choice([9, 10, 11, 12])
+        o = list(range(n))
+        rng.shuffle(o)
+        if kind in ("chain", "n17"):
+            edges = [(o[i], o[i + 1]) for i in range(n - 1)]
+        elif kind == "tree":
+            edges = [(o[rng.randrange(i)], o[i]) for i in range(1, n)]
+        else:
+            edges = [(o[rng.randrange(i)], o[i]) if rng.random() < 0.5 else (o[i], o[rng.randrange(i)]) for i in range(1, n)]
+            # keep it a DAG: orient every edge along o
+            pos = {v: k for k, v in enumerate(o)}
+            edges = [(u, w) if pos[u] < pos[w] else (w, u) for u, w in edges]
+            # at most 3 parents
+            cnt, keep = {}, []
+            for u, w in edges:
+                if cnt.get(w, 0) < 3:
+                    keep.append((u, w))
+                    cnt[w] = cnt.get(w, 0) + 1
+            edges = keep
+        cards = [2] * n
+    q = rng.sample(range(n), rng.randint(1, 2))
+    rest = [v for v in range(n) if v not in q]
+    ev = [[v, rng.randrange(cards[v])] for v in rng.sample(rest, rng.randint(0, min(3, len(rest))))]
+    vev = []
+    if kind != "wide257" and rng.random() < 0.3:
+        v = rng.randrange(n)
+        vev = [[v, [fr(Fraction(rng.randint(1, 7), 8)) for _ in range(cards[v])]]]
+    nodes = list(range(n))
+    rng.shuffle(nodes)
+    return {"kind": "rand", "shape": "mid-" + kind, "n": n, "nodes": nodes, "edges": [list(e) for e in edges], "cards": cards,
+            "cpds": gen_cpds(rng, n, edges, cards), "nstyle": rng.choice(["int", "str", "bigint"]),
+            "sstyle": "int" if kind == "wide257" else rng.choice(["int", "str", "onebased"]),
+            "nameseed": rng.randint(0, 10**9), "Q": q, "E": ev, "vev": vev, "oseed": rng.randint(0, 10**9),
+            "ncfg": 2 if kind in ("n17", "wide257") else 3, "hashseed": hashseed}
+
+
 def big_case(rng, hashseed):
     """>= 9 variables in one factor (a family with 8 parents, or a long chain eliminated into wide factors), integer
     node names >= 8 (the iteration order of a set of small ints is increasing only below 8)"""
@@ -525,6 +610,12 @@ def cases(tier, seed):
     # wide factors (>= 9 variables), integer names >= 8
     for i in range(8 if tier == "quick" else 120):
         out.append(big_case(rng, hs[i % len(hs)]))
+    # valid but not exactly normalised tables
+    for i in range(40 if tier == "quick" else 600):
+        out.append(offnorm_case(rng, hs[i % len(hs)], "root" if i % 3 else "any"))
+    # mid-sized and threshold-sized networks
+    for i in range(10 if tier == "quick" else 150):
+        out.append(midsize_case(rng, hs[i % len(hs)], tier))
     # tables that differ by less than the tolerance of factor equality
     for i in range(6 if tier == "quick" else 80):
         out.append(nearequal_case(rng, hs[i % len(hs)]))
@@ -618,6 +709,8 @@ def names_of(case):
             # predict_probability builds its column labels as name + "_" + str(state): string names only
             pool = [y for y in pool if isinstance(y, str)]
         nn = pool[:n]
+    elif case["nstyle"] == "bigint":
+        nn = rng.sample(range(257, 257 + 4 * n + 8), n)
     else:
         nn = common.node_names(rng, n, case["nstyle"])
     sn = [[tup(s) for s in state_names(rng, case["cards"][v], case["sstyle"])] for v in range(n)]
@@ -839,9 +932,42 @@ def eo_args(eo, case, Q, E, rng, nn):
     return eo, [1, HEUR[eo]]
 
 
+def clone(x):
+    """an object equal to x that is not x (rebuilt at run time): `is` instead of `==` must be noticed"""
+    if isinstance(x, bool):
+        return x
+    if isinstance(x, str):
+        return (x + " ")[:-1] if x else x
+    if isinstance(x, tuple):
+        return tuple([clone(y) for y in x])
+    if isinstance(x, int):
+        return int(str(x))
+    return x
+
+
+def order_container(parg, rng, tags):
+    """an explicit elimination order is 'list (array-like)': list, tuple, object ndarray, pandas Index"""
+    if not isinstance(parg, list) or not parg or not all(isinstance(x, str) for x in parg):
+        return parg
+    k = rng.choice(["list", "list", "tuple", "ndarray", "index"])
+    if k == "tuple":
+        return tuple(parg)
+    if k == "ndarray":
+        import numpy as np
+        tags.append("order as ndarray")
+        return np.array(parg, dtype=object)
+    if k == "index":
+        import pandas as pd
+        tags.append("order as pandas Index")
+        return pd.Index(parg, dtype=object)
+    return parg
+
+
 def snapshot_args(vars_arg, ev_arg, virt_arg, order_arg):
     import copy
     import numpy as np
+    if order_arg is not None and not isinstance(order_arg, (str, list)):
+        order_arg = list(order_arg)
     return [copy.deepcopy(list(vars_arg)), copy.deepcopy(ev_arg),
             None if virt_arg is None else [(list(c.variables), np.asarray(c.values, dtype=float).copy(),
                                             copy.deepcopy(dict(c.state_names)), list(np.asarray(c.cardinality)))
@@ -878,7 +1004,7 @@ def do_query(ve, qn, evidence, virt, parg, joint, rng, reuse):
         ev_arg = rng.choice([None, {}])
     virt_arg = virt if virt else rng.choice([None, None, []])
     order_arg = parg
-    if isinstance(parg, list) and reuse is not None:
+    if type(parg) is list and reuse is not None:
         reuse["order"][:] = parg
         order_arg = reuse["order"]
     before = snapshot_args(vars_arg, ev_arg, virt_arg, order_arg)
@@ -922,12 +1048,18 @@ def one_query(case, drv, m, nn, sn, Q, E, vev, eo, joint, rng, tags, engine=None
     wire = model_bn(case, m, nn, vcards)
     vev_model = [[v, n + k, [Fraction(a, b) for a, b in vals]] for k, (v, vals) in enumerate(vev)]
     vev_spec = [[v, [Fraction(a, b) for a, b in vals]] for v, vals in vev]
-    pe, sjoint, sper = spec_tables(drv, wire, Q, E, vev_spec, cards, sn)
+    ckey = None if case.get("_live") else repr((Q, E, vev))
+    cache = case.setdefault("_spec", {}) if ckey is not None else {}
+    if ckey not in cache:
+        cache[ckey] = spec_tables(drv, wire, Q, E, vev_spec, cards, sn)
+    pe, sjoint, sper = cache[ckey]
     detail = {"Q": Q, "E": E, "vev": vev, "eo": str(eo), "joint": joint}
     parg, marg = eo_args(eo, case, Q, E, rng, nn)
     detail["order"] = marg
-    evidence = {nn[v]: sn[v][i] for v, i in E} or None
-    virt = [TabularCPD(nn[v], cards[v], [[float(Fraction(*vals[p]))] for p in perm],
+    evidence = {clone(nn[v]): clone(sn[v][i]) for v, i in E} or None
+    if isinstance(parg, list):
+        parg = order_container([clone(x) for x in parg], rng, tags)
+    virt = [TabularCPD(clone(nn[v]), cards[v], [[float(Fraction(*vals[p]))] for p in perm],
                        state_names={nn[v]: [sn[v][p] for p in perm]})
             for (v, vals), perm in zip(vev, vperm)] or None
     # the model's rule (= the code's): a virtual evidence whose state list is not the model's own is rejected
@@ -942,7 +1074,7 @@ def one_query(case, drv, m, nn, sn, Q, E, vev, eo, joint, rng, tags, engine=None
         else:
             tags.append("P(e)=0: pgmpy returns (nan) without raising")
         return "excluded"
-    res, pure = do_query(ve, [nn[q] for q in Q], evidence, virt, parg, joint, rng, reuse)
+    res, pure = do_query(ve, [clone(nn[q]) for q in Q], evidence, virt, parg, joint, rng, reuse)
     if not pure:
         return bad("argument-mutated", detail)
     if isinstance(res, ValueError) and reordered:
@@ -990,6 +1122,8 @@ def one_query(case, drv, m, nn, sn, Q, E, vev, eo, joint, rng, tags, engine=None
         else:
             d_ms = None if tm == ts else "model != brute-force posterior"
         d_is = cmp_tables(ti, ts, rel)
+        if case.get("offnorm") == "any":
+            d_is, d_ms = (d_im and "impl != model (off-normalised non-root column: oracle = model)"), None
         if d_is:
             detail.update({"impl": sorted((sorted(k), v) for k, v in ti.items()),
                            "spec": sorted((sorted(k), str(v)) for k, v in ts.items()),
